@@ -38,7 +38,7 @@ ASSUMPTIONS = [
 ]
 
 SEED_POOL = [0, 0, 1, 2, 7, 42, 12345, 2 ** 32, 2 ** 64 + 1, 2 ** 60 + 1, 1790455886123456789, {"seq": [1, 2, 3]}, {"np": 0}, {"np": 77},
-             {"ss": 5, "shared": True}, {"ss": 99, "shared": True}, {"ss": 5}]
+             {"ss": 5, "shared": True}, {"ss": 99, "shared": True}, {"ss": 5}, {"ssc": [7, 0]}, {"ssc": [7, 1]}, {"ssc": [123456789, 2]}]
 LIB_CALLS = ["optimal_grouping", "equivalent_layers", "circle", "ft2", "centre_of_gravity", "phase_covariance", "covmat", "cn2_to_r0"]
 
 
@@ -56,6 +56,8 @@ def sizes(tier):
 def _seed_key(s):
     if isinstance(s, dict) and "np" in s:
         return repr(int(s["np"]))            # the same seed value, only in another integer type
+    if isinstance(s, dict) and "ssc" in s:
+        return "ssc%d.%d" % (int(s["ssc"][0]), int(s["ssc"][1]))
     if isinstance(s, dict) and "ss" in s:
         return "ss%d" % int(s["ss"])         # a SeedSequence with this entropy, shared object or not
     return repr(s)
@@ -132,6 +134,8 @@ def gen_plan(rng, tier, index=0):
             s2 = r.choice([s for s in SEED_POOL if _seed_key(s) != _seed_key(s1)] + [r.randrange(2 ** 31)])
             if isinstance(s1, int) and r.chance(0.5):
                 s2 = s1 + r.choice([1, 2])           # a neighbouring seed (layer index added to a base seed), also for huge bases
+            if isinstance(s1, dict) and "ssc" in s1:
+                s2 = {"ssc": [s1["ssc"][0], s1["ssc"][1] + 1]}          # the sibling child of the same parent
             if _seed_key(s2) != _seed_key(s1):
                 b = len(actors)
                 actors.append({"kind": kind, "params": params, "seed": s2, "rows": rows, "twin_of": None, "group": g})
